@@ -191,6 +191,11 @@ class _Sink:
         pass
 
 
+# vertices written to / parsed from the .poly text (concrete, exactly
+# representable): negative, tiny, huge and plain coordinates
+TEXT_PTS = [[-0.25, 0.5], [10.5, -1.52587890625e-05], [1.25e+20, 7.75]]
+
+
 def run_text(eng, p):
     """real PolygonFilter.save -> lines -> real PolygonFilter(filename=...)
     (real __init__, _load, _set_unique_id, registry) with a symbolic name
@@ -290,7 +295,7 @@ def run_text(eng, p):
                                     qualname="PolygonFilter._load")
     PFs.instances = []
     PFs._instance_counter = 0
-    pts = [[0.25, 0.5], [10.5, 0.5], [10.5, 7.75]]
+    pts = [list(q) for q in TEXT_PTS]
     sink = Sink()
     filters = [dict(axes=("area_um", "deform"), points=pts, name=name,
                     inverted=inverted, uid=uids[0])]
@@ -419,7 +424,7 @@ def replay_text(params, v):
     if uid0 == uid1:
         uid1 = uid0 + 1
     PolygonFilter = real(PF, "PolygonFilter")
-    pts = [[0.25, 0.5], [10.5, 0.5], [10.5, 7.75]]
+    pts = [list(q) for q in TEXT_PTS]
     fails = []
     with quiet(), tempfile.TemporaryDirectory(prefix="verif_c15_") as td:
         path = os.path.join(td, "f.poly")
